@@ -6,6 +6,7 @@ package main
 import (
 	"encoding/json"
 	"fmt"
+	"math"
 	"sort"
 	"time"
 
@@ -55,9 +56,9 @@ func run(c *core.Case, st *core.CaseStats, seed int64) {
 		opt := core.RawInts(c.Out)[0]
 		items := make([]item, len(raw))
 		for i, r := range raw {
-			items[i] = item{i, r[0], r[1]}
+			items[i] = item{i, hugeW(r[0]), r[1]}
 		}
-		in := map[string]interface{}{"items_w_v": raw, "limit": limit}
+		in := map[string]interface{}{"items_w_v": raw, "limit": limit, "note": "weight 2^30 stands for MaxInt, 2^30-1 for 2^62"}
 		if len(items) > 1 {
 			st.Nontrivial++
 		}
@@ -183,8 +184,34 @@ func run(c *core.Case, st *core.CaseStats, seed int64) {
 			for v := 1; v <= n; v++ {
 				g.AddNode(v + off)
 			}
-			for _, e := range edges {
-				g.AddUndirectedEdge(e/10+off, e%10+off)
+			rot := 0
+			if len(c.A) > 1 {
+				rot = core.RawInt(c.A[1])
+			}
+			for k, e := range edges {
+				a, b := e/10+off, e%10+off
+				form := (k + 1 + rot) % 6 // FormAt of Algz.tla (edges are numbered from 1 there)
+				if rep3 == 1 {
+					form = 0
+				}
+				switch form {
+				case 0:
+					g.AddUndirectedEdge(a, b)
+				case 1:
+					g.AddUndirectedEdge(b, a)
+				case 2:
+					g.AddEdge(a, b)
+					g.AddEdge(b, a)
+				case 3:
+					g.AddEdge(a, b)
+					g.AddUndirectedEdge(a, b)
+				case 4:
+					g.AddEdge(b, a)
+					g.AddUndirectedEdge(a, b)
+				case 5:
+					g.AddUndirectedEdge(a, b)
+					g.AddUndirectedEdge(a, b)
+				}
 			}
 			var cs [][]int
 			if !guard("GetMaximalCliques", in, func() { cs = g.GetMaximalCliques() }) {
@@ -212,6 +239,17 @@ func run(c *core.Case, st *core.CaseStats, seed int64) {
 	default:
 		panic("unknown fn " + c.Fn)
 	}
+}
+
+// hugeW maps the specification's Huge (2^30) to the largest int and Huge - 1 to 2^62
+func hugeW(w int) int {
+	switch w {
+	case 1 << 30:
+		return math.MaxInt
+	case 1<<30 - 1:
+		return 1 << 62
+	}
+	return w
 }
 
 func keys(m algz.DpSolvers[item]) []int {
